@@ -1,5 +1,5 @@
 CONSTANTS NT = 2
-  Progs <- ProgsQ1
+  Progs <- ProgsLv
   Threaded = FALSE
   MaxNow = 0
   Fds <- FdsA
